@@ -6,6 +6,8 @@ cmd="$1"; shift
 case "$cmd" in
   check)  exec .venv/bin/python check.py "$@" ;;
   replay) exec .venv/bin/python replay.py "$@" ;;
+  baseline) # records, per claimed property, the obligations discharged on the CURRENT tree (run on the unchanged tree, then commit baseline/)
+          for p in $(.venv/bin/python -c "import json;print(' '.join(c['property_id'] for c in json.load(open('MANIFEST.json'))['checks']))"); do VERIF_WRITE_BASELINE=1 .venv/bin/python check.py $p "$@" | tail -1; done; exit 0 ;;
   all)    rc=0; for p in $(.venv/bin/python -c "import json;print(' '.join(c['property_id'] for c in json.load(open('MANIFEST.json'))['checks']))"); do .venv/bin/python check.py $p "$@" || rc=$?; done; exit $rc ;;
   *) echo "usage: $0 check <Cxx> [--tier quick|thorough] | replay <file> | all"; exit 3 ;;
 esac
